@@ -296,6 +296,27 @@ theorem KD.knn_eq_scan (coord : P → Nat → K) (sq : P → P → K)
   rw [KD.knn_eq_search]
   exact KD.search_eq_foldl coord sq hplane p _ _ (fun s x q => knn_skip sq k p s x q) t s h
 
+/-! ### from a tree over point ids to the tree over points -/
+
+theorem KD.slice_map {Q : Type} (f : P → Q) : ∀ t : KD P, (t.map f).slice = t.slice.map f
+  | .nil => rfl
+  | .node c a l g => by simp [KD.map, KD.slice, KD.slice_map f l, KD.slice_map f g]
+
+theorem KD.inv_map {Q : Type} {α : Type} [LT α] (f : P → Q) (coord : Q → Nat → α) :
+    ∀ t : KD P, KD.Inv (fun i ax => coord (f i) ax) t → KD.Inv coord (t.map f)
+  | .nil, _ => trivial
+  | .node c a l g, h => by
+      obtain ⟨hl, hg, il, ig⟩ := h
+      refine ⟨?_, ?_, KD.inv_map f coord l il, KD.inv_map f coord g ig⟩
+      · intro q hq
+        rw [KD.slice_map] at hq
+        obtain ⟨i, hi, rfl⟩ := List.mem_map.1 hq
+        exact hl i hi
+      · intro q hq
+        rw [KD.slice_map] at hq
+        obtain ⟨i, hi, rfl⟩ := List.mem_map.1 hq
+        exact hg i hi
+
 /-! ### the geometric fact for `V3` / `V2` -/
 
 theorem hplane3 (p q : V3 K) (ax : Nat) :
